@@ -9,7 +9,7 @@ From AGH Require Import Model.Migrate Proofs.Migrate Proofs.MigrateFrame Proofs.
   Proofs.MigrateTable Gen.MigrateTable Proofs.MigrateFrameDns Proofs.MigrateElems
   Model.MigrateLoad Proofs.MigrateLoadable Proofs.MigrateLoadableC Proofs.MigrateLoadableH Proofs.MigrateBack
   Model.MigrateKinds Proofs.MigrateKinds Model.MigrateFootprint Proofs.MigrateFootprint Proofs.MigrateValues
-  Model.MigrateFile Proofs.MigrateFile.
+  Model.MigrateFile Proofs.MigrateFile Model.MigratePorts Proofs.MigratePorts.
 Import ListNotations.
 Local Open Scope string_scope.
 Local Open Scope Z_scope.
@@ -643,3 +643,111 @@ Theorem C13_swallow_same_without_fault : forall O accepts f,
   parse_config_swallow O accepts f true = parse_config O accepts f true.
 Proof. exact swallow_same_without_fault. Qed.
 Print Assumptions C13_swallow_same_without_fault.
+
+(** ** Round 6: the ports (the first VALUE clause of the loader)
+
+    [doc_ports_ok v m] (Model/MigratePorts.v) is the port clause of
+    [validateConfig] as the code has it on the unchanged tree, read from a
+    document the way version [v] spells the ports: every port a [uint16], the
+    NON-ZERO ports of one transport pairwise distinct (web, and with
+    [tls.enabled] HTTPS, DNS-over-TLS, DNSCrypt; DNS, and with [tls.enabled]
+    DNS-over-QUIC); a zero port is a listener switched off and is skipped
+    ([addPorts]).  A successful upgrade of a document loadable at its version
+    whose ports are valid under that version has ports the current loader
+    accepts; [web_together]: below version 23 [bind_port] does not come
+    without [bind_host] (the program of version 22 wrote both). *)
+Theorem C13_upgrade_preserves_ports_ok : forall O cur tgt m m', (cur <= tgt <= 29)%nat ->
+  upgrade O cur tgt m = Ok m' ->
+  loadable cur m = true -> (web_flat cur = true -> web_together m = true) ->
+  doc_ports_ok cur m = true ->
+  doc_ports_ok tgt m' = true.
+Proof. exact upgrade_preserves_ports_ok. Qed.
+Print Assumptions C13_upgrade_preserves_ports_ok.
+
+(** Kinds and ports together: the loader's verdict on the fields the steps touch. *)
+Theorem C13_upgrade_preserves_loadable_ports : forall O cur tgt m m', (cur <= tgt <= 29)%nat ->
+  upgrade O cur tgt m = Ok m' ->
+  (web_flat cur = true -> web_together m = true) ->
+  loadable_ports cur m = true -> loadable_ports tgt m' = true.
+Proof. exact upgrade_preserves_loadable_ports. Qed.
+Print Assumptions C13_upgrade_preserves_loadable_ports.
+
+(** Carried to [Migrate] and to the file the loader reads (the statement
+    Run/C13.v evaluates on every upgraded document). *)
+Theorem C13_output_ports_ok : forall O top t a,
+  migrate O top t = ONew a ->
+  let m := input_map top in
+  loadable (nat_version m) m = true ->
+  (web_flat (nat_version m) = true -> web_together m = true) ->
+  doc_ports_ok (nat_version m) m = true ->
+  doc_ports_ok (Z.to_nat t) a = true /\ doc_ports_ok (Z.to_nat t) (norm_obj a) = true.
+Proof. exact migrate_output_ports_ok. Qed.
+Print Assumptions C13_output_ports_ok.
+
+(** What step 23 writes is read back by the loader as the same port. *)
+Theorem C13_address_port_roundtrip : forall host p,
+  in_u16 p = true -> port_of_addr (host ++ ":" ++ dec p)%string = Some p.
+Proof. exact port_of_addr_join. Qed.
+Print Assumptions C13_address_port_roundtrip.
+
+(** A listener switched off never makes two others collide (used at step 23,
+    which writes port 0 for a [bind_host] without [bind_port]). *)
+Theorem C13_ports_ok_web_zero : forall p,
+  ports_ok p = true ->
+  ports_ok {| p_tls := p_tls p; p_web := 0; p_dns := p_dns p; p_https := p_https p; p_dot := p_dot p;
+              p_doq := p_doq p; p_dnscrypt := p_dnscrypt p |} = true.
+Proof. exact ports_ok_web_zero. Qed.
+Print Assumptions C13_ports_ok_web_zero.
+
+(** For [parseConfig] with the port clause as the loader: the hypothesis
+    [upgrade_acceptable] of [C13_parse_config_error_keeps_file] holds, so every
+    error of a start on such a file leaves the file as it was. *)
+Theorem C13_parse_config_valid_ports_error_keeps_file : forall O top wr r w,
+  let m := input_map top in
+  loadable (nat_version m) m = true ->
+  (web_flat (nat_version m) = true -> web_together m = true) ->
+  doc_ports_ok (nat_version m) m = true ->
+  parse_config O (doc_ports_ok 29) (FDoc top) wr = (r, w) -> is_error r = true ->
+  w = None /\ file_after (FDoc top) w = FDoc top.
+Proof. exact parse_config_valid_ports_error_keeps_file. Qed.
+Print Assumptions C13_parse_config_valid_ports_error_keeps_file.
+
+(** Premises satisfiable: the two documents of seeded change C13-L (encryption
+    on, HTTPS switched off by hand / a [bind_host] without [bind_port]) are
+    loadable at version 22, their ports valid, and their upgrade is accepted. *)
+Example C13_seed_documents_upgrade_fine :
+  forall d, In d [doc_https_off; doc_no_bind_port] ->
+    loadable 22 d = true /\ web_together d = true /\ doc_ports_ok 22 d = true /\
+    exists a, migrate oracles_lo (Some d) 29 = ONew a /\ doc_ports_ok 29 (norm_obj a) = true.
+Proof. exact seed_documents_upgrade_fine. Qed.
+Print Assumptions C13_seed_documents_upgrade_fine.
+
+(** REFUTED variant "zero counts as a port" (seeded change C13-L: the loader
+    calls [UniqChecker.Add] directly instead of [addPorts]): both documents,
+    valid under their own schema, upgrade to a file that loader refuses. *)
+Theorem C13_zero_counts_loader_refuted :
+  forall d, In d [doc_https_off; doc_no_bind_port] ->
+    loadable 22 d = true /\ web_together d = true /\ doc_ports_ok 22 d = true /\
+    exists a, migrate oracles_lo (Some d) 29 = ONew a /\ doc_ports_ok_gen true 29 (norm_obj a) = false.
+Proof. exact zero_counts_loader_refuted. Qed.
+Print Assumptions C13_zero_counts_loader_refuted.
+
+(** ... and even with zero counted on both sides the preservation statement
+    fails (step 23 adds a second zero TCP port). *)
+Theorem C13_zero_counts_not_preserved :
+  exists O cur tgt m m', (cur <= tgt <= 29)%nat /\ upgrade O cur tgt m = Ok m' /\
+    loadable cur m = true /\ web_together m = true /\
+    doc_ports_ok_gen true cur m = true /\ doc_ports_ok_gen true tgt m' = false.
+Proof. exact zero_counts_not_preserved. Qed.
+Print Assumptions C13_zero_counts_not_preserved.
+
+(** REFUTED without [web_together], ON THE CODE AS IT IS (known finding
+    C13-step23-lone-web-key): a web port without a web host below version 23
+    is left at the top level by step 23; the loader falls back to port 3000,
+    which HTTPS holds in the witness. *)
+Theorem C13_lone_bind_port_refuted :
+  loadable 22 doc_lone_bind_port = true /\ doc_ports_ok 22 doc_lone_bind_port = true /\
+  web_together doc_lone_bind_port = false /\
+  exists a, migrate oracles_lo (Some doc_lone_bind_port) 29 = ONew a /\ doc_ports_ok 29 (norm_obj a) = false.
+Proof. exact lone_bind_port_refuted. Qed.
+Print Assumptions C13_lone_bind_port_refuted.
